@@ -332,7 +332,10 @@ class SynthObject(gpp.UGenParameter, metaclass=MetaSynthObject):
     def _check_valid_inputs(self):
         '''Returns error msg or None.'''
         for i, input in enumerate(self.inputs):
-            if not gpp.ugen_param(input)._is_valid_ugen_input():
+            # A sequence left among the inputs would be written as several
+            # input specs for one declared input.
+            if isinstance(input, (list, tuple))\
+            or not gpp.ugen_param(input)._is_valid_ugen_input():
                 arg_name = self._arg_name_for_input_at(i)
                 if arg_name is None: arg_name = i
                 return f'arg: {arg_name} has bad input: {input}'
